@@ -24,7 +24,7 @@ for p in props:
                 "design_ref": c.get("design_ref", "DESIGN.md section 5, " + pid),
             },
             "level_note": c["note"],
-            "technique": c.get("technique", "bounded symbolic execution of the go/ssa of /repo (built on every run) with SMT (z3) deciding every branch feasibility and every property assertion; counterexamples replayed against the natively compiled library"),
+            "technique": c.get("technique", "bounded symbolic execution of the go/ssa of /repo (rebuilt on every run): inputs are symbolic bit-vector bytes/ints, every property assertion is decided by z3 5.1.0 under the path condition (cvc5 cross-check in thorough), branch feasibility by z3 or - for conditions over small finite domains - by exact evaluation that is audited against z3; every counterexample is replayed against the natively compiled library before it is reported"),
         }
         checks.append(e)
     else:
